@@ -8,6 +8,7 @@ export GOTOOLCHAIN=local
 setup: harness coq checker
 
 harness:
+	mkdir -p coq/gen
 	mkdir -p .work
 	cp /repo/go.sum harness/go.sum
 	cd harness && go build -tags verif -o ../.work/harness-verif .
